@@ -215,11 +215,13 @@ Fixpoint take_exts (fuel : nat) (s : str) : list (str * option str) * str :=
           match take_token (skip_ows r) with
           | Some (name, r') =>
               let '(v, r'') := match r' with
-                               | 61 :: r2 => match take_value r2 with
-                                             | Some (v, r3) => (Some v, r3)
-                                             | None => (None, r')
-                                             end
-                               | _ => (None, r')
+                               | c :: r2 => if c =? 61
+                                            then match take_value r2 with
+                                                 | Some (v, r3) => (Some v, r3)
+                                                 | None => (None, r')
+                                                 end
+                                            else (None, r')
+                               | [] => (None, r')
                                end in
               let '(es, rest) := take_exts f r'' in ((name, v) :: es, rest)
           | None => ([], s)
